@@ -46,7 +46,7 @@ void verif_nw_fields(void *, size_t *, size_t *, size_t *);
 
 static int sub = 0;	/* 0 reader-small, 1 reader-real, 2 writer */
 static const char * subname[] = { "reader-small", "reader-real", "writer" };
-static int op_bound = 5;
+static int op_bound = 5, small_alpha = -1;	/* writer alphabet: 1 = reduced, 0 = full, -1 = by tier */
 
 #define MAXS 20100
 static uint8_t stream[MAXS];
@@ -289,8 +289,8 @@ wr_body(void)
 		wr_state(0, 0);
 		if (ops >= op_bound) break;
 		kind[nm++] = 0;
-		if (vf_tier == 0) {
-			/* quick: a smaller alphabet that still has empty, coalescing, boundary and oversized writes, and partial reservations */
+		if (small_alpha) {
+			/* a smaller alphabet that still has empty, coalescing, boundary and oversized writes, and partial reservations */
 			static const size_t QW[] = {0, 1, 4096, 4097, 9000}, QR[][2] = { {5, 0}, {5, 3}, {4097, 4097}, {9000, 1} };
 			for (i = 0; i < 5; i++) { kind[nm] = 1; a1[nm++] = QW[i]; }
 			for (i = 0; i < 4; i++) { kind[nm] = 2; a1[nm] = QR[i][0]; a2[nm++] = QR[i][1]; }
@@ -353,15 +353,18 @@ main(int argc, char ** argv)
 		if (!strcmp(argv[i], "--sub") && i + 1 < argc) { int k; i++; for (k = 0; k < 3; k++) if (!strcmp(argv[i], subname[k])) sub = k; }
 		else if (!strcmp(argv[i], "--ops") && i + 1 < argc) op_bound = atoi(argv[++i]);
 		else if (!strcmp(argv[i], "--dev") && i + 1 < argc) dev = atoi(argv[++i]);
+		else if (!strcmp(argv[i], "--alpha") && i + 1 < argc) small_alpha = !strcmp(argv[++i], "small");
 	}
 	if (vf_replay) {
+		if (strstr(vf_replay, "\"--alpha\",\"small\"")) small_alpha = 1; else if (strstr(vf_replay, "\"--alpha\",\"full\"")) small_alpha = 0;
 		if ((p = strstr(vf_replay, "\"--sub\",\"")) != NULL) { int k; for (k = 0; k < 3; k++) if (!strncmp(p + 9, subname[k], strlen(subname[k]))) sub = k; }
 		if ((p = strstr(vf_replay, "\"--ops\",\"")) != NULL) op_bound = atoi(p + 9);
 	}
 	for (q = 0; q < MAXS; q++) stream[q] = g(q);
 	memset(&cfgm, 0, sizeof(cfgm));
 	cfgm.name = subname[sub]; cfgm.body = sub <= 1 ? rd_body : wr_body; cfgm.teardown = teardown; cfgm.dev_bound = dev; cfgm.table_bits = 25;
-	snprintf(args, sizeof(args), "[\"--sub\",\"%s\",\"--ops\",\"%d\"]", subname[sub], op_bound);
+	if (small_alpha < 0) small_alpha = (vf_tier == 0);
+	snprintf(args, sizeof(args), "[\"--sub\",\"%s\",\"--ops\",\"%d\",\"--alpha\",\"%s\"]", subname[sub], op_bound, small_alpha ? "small" : "full");
 	cfgm.args_json = args;
 	vf_info("bounds", "sub-driver %s: <=%d operations, <=%d environment deviations", subname[sub], op_bound, dev);
 	fk_reset(); fk_teardown_mode = 1; events_run(); fk_teardown_mode = 0;
